@@ -14,7 +14,10 @@ def fake_run_jobs(self, jobs, procs=None):
             r = self._run_in_thread(j)
             for v in r['violations']:
                 v.pop('path', None)
-            print(json.dumps({k: v for k, v in r.items() if k not in ('smt2', 'funcs', 'samples', 'contracts')}, indent=1, default=str)[:8000])
+            if len(r['violations']) > 6 and not os.environ.get('RUN1_ALL'):
+                r['violations_total'] = len(r['violations'])
+                r['violations'] = r['violations'][:6]
+            print(json.dumps({k: v for k, v in r.items() if k not in ('smt2', 'funcs', 'samples', 'contracts')}, indent=1, default=str))
             out.append(r)
             self.cleanup()
             sys.exit(0)
